@@ -57,6 +57,7 @@ type vssRun struct {
 	sidExact bool
 	// unsolicited: number of justifications the dealer signed without a complaint reaching its object
 	unsolicited int
+	stray       int
 }
 
 func (r *vssRun) key(w string) string { return "C10/" + r.impl.name + "/" + w }
@@ -153,6 +154,21 @@ func (r *vssRun) checkInvariants(step string) {
 		v := r.views[p]
 		if !v.ready {
 			continue
+		}
+		// I7: the deal a verifier hands out is the one it approved, whatever it was sent afterwards
+		// (second deals, justifications it had no reason to get): the shares that reconstruct the
+		// secret are read from Deal()
+		if p < r.n && r.sent[p] != nil && r.genuine[p] != nil && r.genuine[p].Approved {
+			var d *gDeal
+			if pn := safely(func() { d = r.vers[p].CertifiedDeal() }); pn != "" {
+				r.fail("deal-panic", "Deal() panicked at %s after %s: %s", r.party(p), step, pn)
+			} else if d != nil {
+				s0 := r.sent[p]
+				if d.I != s0.I || !d.V.Equal(s0.V) || !samePoints(d.Commits, s0.Commits) || (s0.RV != nil && (d.RV == nil || !d.RV.Equal(s0.RV))) {
+					r.fail("approved-deal-replaced", "after %s: %s.Deal() no longer returns the deal this verifier approved (index %d->%d, share equal=%v, commitments equal=%v)", step, r.party(p), s0.I, d.I, d.V.Equal(s0.V), samePoints(d.Commits, s0.Commits))
+				}
+				r.stats["held-deal-compared"] = true
+			}
 		}
 		var cert bool
 		if pn := safely(func() { cert = r.certified(p) }); pn != "" {
@@ -582,6 +598,36 @@ func (r *vssRun) deliverJustification() {
 		if !r.sidConsistent(j.Deal) {
 			r.stats["justification-reveals-inconsistent-deal"] = true
 		}
+	}
+	// Nobody authenticates justifications: anybody can send a verifier that APPROVED its deal a
+	// "justification" for its own index carrying some other deal.  It has nothing to justify, must be
+	// refused, and must leave the verifier as it was (I7 and the later invariants check that).
+	var appr []int
+	for i := 0; i < r.n; i++ {
+		if st, has := r.views[i].resp[uint32(i)]; r.views[i].ready && r.sent[i] != nil && has && st && r.genuine[i] != nil && r.genuine[i].Approved {
+			appr = append(appr, i)
+		}
+	}
+	if len(appr) > 0 && r.stray < 2 && rapid.IntRange(0, 4).Draw(r.t, "stray") == 0 {
+		r.stray++
+		i := appr[rapid.IntRange(0, len(appr)-1).Draw(r.t, "strayfor")]
+		plan := rapid.SampledFrom([]string{"bad-share", "bad-share", "other-index", "foreign-commitments", "honest"}).Draw(r.t, "strayplan")
+		j := gJust{Index: uint32(i), Deal: r.justDeal(i, plan)}
+		j.Deal.SID = append([]byte(nil), r.sent[i].SID...)
+		j.SID = append([]byte(nil), j.Deal.SID...)
+		j.Sig, _ = schnorr.Sign(r.suite, r.dlong, r.impl.justHash(r.suite, j))
+		step := fmt.Sprintf("stray justification(idx %d, %s)->V%d", i, plan, i)
+		var err error
+		if pn := safely(func() { err = r.vers[i].ProcessJustification(j) }); pn != "" {
+			r.fail("justification-panic", "%s panicked: %s", step, pn)
+			return
+		}
+		r.log("%s: err=%v", step, err)
+		r.stats["stray-justification"] = true
+		if err == nil {
+			r.fail("justification-without-complaint", "%s: accepted although this verifier approved its deal", step)
+		}
+		r.checkInvariants(step)
 	}
 	if len(r.justs) == 0 {
 		return
